@@ -15,6 +15,18 @@ CHECKS = {
  "C19": dict(level="exploration", design="5/C19", technique="complete grid T x Z x boundary-F x Al against a u128 acceptance predicate",
    text="Every T (thorough: all 65535) x every Z x every F adjacent to a limit or to a 2^32 multiple of the symbol count x alignment classes is passed to the real constructor under catch_unwind; accept/refuse must equal the documented predicate evaluated in u128 and accepted values must be echoed.",
    note="F off the boundary sets is not enumerated; limits are those documented on the constructor (errata 5548 and 4.4.1.2)."),
+ "C04": dict(level="exploration", design="5/C04", technique="complete enumeration over all 477 block sizes / whole repair streams against an independent RFC 6330 reference (tuples, constraint matrix, certificate of intermediate symbols, packets, independent Gaussian solve)",
+   text="Five layers, each a complete enumeration of its box against rfcref: tuples, the constraint matrix entry by entry for every K', a certificate check of the encoder's intermediate symbols for all 954 (K', min-K) sizes, every source/near/far repair packet against Enc[K',C,Tuple], whole 2^24-K repair streams, and an independent solve for every K<=300.",
+   note="Trusted base: V0-V3, Table 2, degree table transcribed from the pinned commit. T in {1,3} here; other symbol sizes are lifted by C09."),
+ "C05": dict(level="exploration", design="5/C05", technique="complete enumeration of a configuration box (F,T,Z,N,Al) against a reference layout map, plus Partition[I,J] grid",
+   text="Every configuration of the box is encoded by the real Encoder and every payload byte of every source packet is compared with an RFC-written map (SBN,ESI,byte)->object offset/padding; a Decoder must invert it; partition() is compared on a complete grid.",
+   note="Box bounds: Kt<=8 (14), Z<=4 (7), T<=32; larger shapes only encode-only at selected sizes."),
+ "C06": dict(level="exploration", design="5/C06", technique="complete product over all 477 K' x {K', min K} x {dense, sparse} x {direct, plan replay}, certificate check by the reference model; repeated in the debug-assertions build",
+   text="For every block size the encoder is built in all four variants on the real code; all variants must succeed, agree, and satisfy every LDPC/HDPC/LT relation evaluated by the reference model. The thorough tier is the complete product (exhaustive over the finite set of block sizes).",
+   note="Quick tier restricts the dense back-end to K'<=1100. Checked-profile runs stop at K'=1100 (cubic self-checks)."),
+ "C18": dict(level="exploration", design="5/C18", technique="complete enumeration of windows (s,n), whole repair streams and plan instances; differential oracle (window vs singles, plan vs plan)",
+   text="All windows with s+n<=24 and the windows at the 2^24 end for every K of the ladder, two complete 2^24-K streams under two tilings, six ways of obtaining an encoder per K, and the per-object packet list over a configuration box.",
+   note="Requests beyond ESI 2^24-1 are outside the property and not judged."),
  "C10": dict(level="exploration", design="5/C10", technique="exhaustive enumeration of the finite domain (256^2 pairs, 256^3 triples, all table entries) against a shift-and-xor reference",
    text="Complete enumeration of the whole finite input domain of the field arithmetic and of every derived table entry against an independent polynomial-arithmetic reference; exhaustive, so the property is decided outright for this build.",
    note="Trusts only the field polynomial 0x11D / generator 2 (the reference checks that 2 generates all 255 units)."),
